@@ -117,11 +117,6 @@ theorem signOk_of_eval (d : Nat) (m : Bytes) (k : Nat)
 theorem hashLenI : ∀ b, (Ht.hash160 b).length = 20 := by intro b; simp [Ht, toySha, beBytes]
 theorem keysI : ∀ d ∈ K0.secs, 0 < d ∧ d < Secp.n := by
   intro d hd; simp [K0] at hd; subst hd; exact ⟨by decide, by decide⟩
-theorem noCrossI : NoCross ksI := by
-  intro k k' kr kr' h1 h2
-  have e1 := singleKey (P := fun _ kr => kr = krI) rfl k kr h1
-  have e2 := singleKey (P := fun _ kr => kr = krI) rfl k' kr' h2
-  subst e1; subst e2; decide +kernel
 theorem nonzeroI : ∀ (k : Nat) (kr : KeyRec), ksI[k]? = some kr →
     ScriptSpec.castToBool kr.h160 = true ∧ ScriptSpec.castToBool ((kr.pub.drop 1).take 32) = true :=
   singleKey (P := fun _ kr => ScriptSpec.castToBool kr.h160 = true ∧ ScriptSpec.castToBool ((kr.pub.drop 1).take 32) = true)
